@@ -102,9 +102,14 @@ fn parenthesize_invisible_groups(stream: TokenStream) -> TokenStream {
         .into_iter()
         .map(|tt| match tt {
             TokenTree::Group(g) => {
+                // Only an expression needs (and bears) parentheses: a `$t:ty`, `$p:path`, `$s:stmt`
+                // or `$i:item` fragment is left as it is.
                 let delimiter = if g.delimiter() == Delimiter::None
                     && g.stream().into_iter().nth(1).is_some()
-                    && syn::parse2::<syn::Path>(g.stream()).is_err()
+                    && matches!(
+                        syn::parse2::<syn::Expr>(g.stream()),
+                        Ok(expr) if !matches!(expr, syn::Expr::Path(_) | syn::Expr::Let(_)),
+                    )
                 {
                     Delimiter::Parenthesis
                 } else {
